@@ -58,6 +58,18 @@ CHECKS = {
              "values is displayed follows Python's set order and is not compared. The escaping itself needed a fix: commit.",
         technique="Lean 4 induction proofs on escaping functions + structure correspondence through Graphviz's own parser",
         design="§4.C15"),
+    "C17": dict(
+        text="Lean: destination analysis transcribed from urlparse as used after the fix (scheme detection, netloc, file: URLs): "
+             "c17_exact / c17_exact_plain: every name without a network part that is not a file: URL is written to exactly that name, "
+             "whatever '#', '?', ';', ':' it contains; the write-to-temporary-then-move machine with one fault point per step: "
+             "c17_all_or_nothing: for EVERY fault point (or none) the named file holds its previous content (or stays absent) or the "
+             "complete serialisation, every other file is unchanged and the temporary file is gone. On the real code: a failure is "
+             "injected at each successive write call of the temporary stream, at close and at the final move, for 4 formats x 13 names x "
+             "{absent, present}; directory listings and bytes are compared with the expectation and with the step machine.",
+        note=A_COMMON + " Atomicity of os.rename on one filesystem, freshness of mkstemp names, durability and file modes are OS behaviour "
+             "outside the model (A-EXT); the cross-device copy fallback of shutil.move is not atomic and not claimed.",
+        technique="Lean 4 proof over all fault points of a step machine + exhaustive fault injection on the real call",
+        design="§4.C17", category="proof"),
     "C18": dict(
         text="Lean: _id_map is modelled as a separate component and proved to be the URI-indexed view of _records: c18_idmap_append, "
              "c18_coherent_add (one _add_record), and WF (all containers coherent, all references allocated) is preserved by new_record "
